@@ -3,7 +3,7 @@ package main
 import (
 	"fmt"
 	"go/types"
-	"strings"
+	_ "strings"
 
 	"golang.org/x/tools/go/ssa"
 )
@@ -58,7 +58,11 @@ func (ex *Exec) fillModel(v *Violation) {
 	v.Threads = ex.threadDump()
 	v.Decisions = append([]Decision{}, ex.decisions...)
 	v.Actions = append([]string{}, ex.actions...)
-	v.Observes = append([]string{}, ex.observes...)
+	m := map[string]uint64{}
+	for _, n := range ex.nondets {
+		m[n.T.name] = vals[n.T.id]
+	}
+	v.Observes = ex.renderObserves(m)
 }
 
 func (ex *Exec) threadDump() []string {
@@ -178,23 +182,29 @@ func init() {
 		return nil, false
 	}
 	V["verifObserve"] = func(ex *Exec, th *Thread, fn *ssa.Function, a []Value) (Value, bool) {
-		var sb strings.Builder
-		sb.WriteString(cstr(a[0]))
+		rec := obsRec{label: cstr(a[0])}
 		if sv, ok := a[1].(sliceV); ok {
 			for _, x := range sv.arr {
-				n, ok := ex.nativeArg(x)
-				if ok {
-					fmt.Fprintf(&sb, " %v", n)
-				} else if iv, ok := x.(ifaceV); ok {
-					if t, ok := iv.v.(*Term); ok {
-						fmt.Fprintf(&sb, " <sym:t%d>", t.id)
-					} else {
-						sb.WriteString(" ?")
+				iv, _ := x.(ifaceV)
+				switch t := iv.v.(type) {
+				case *Term:
+					if t.w > 0 && !isSigned(iv.t) {
+						// render unsigned values as such
+						t = ex.tc.Resize(t, 64, false)
 					}
+					rec.vals = append(rec.vals, t)
+				case strV:
+					if t.opaque || t.ite != nil {
+						rec.vals = append(rec.vals, "?")
+					} else {
+						rec.vals = append(rec.vals, t.s)
+					}
+				default:
+					rec.vals = append(rec.vals, "?")
 				}
 			}
 		}
-		ex.observes = append(ex.observes, sb.String())
+		ex.observes = append(ex.observes, rec)
 		return nil, false
 	}
 	V["verifAnd"] = func(ex *Exec, th *Thread, fn *ssa.Function, a []Value) (Value, bool) {
